@@ -1,10 +1,10 @@
 #!/usr/bin/env bash
-# tools/fuzz_campaign.sh <ID> <target> <runs-per-process> <processes>
+# tools/fuzz_campaign.sh <ID> <target> <runs-per-process> <processes> [max input length, default 3000]
 # Builds the cargo-fuzz targets from /repo's current tree, runs <processes> libFuzzer processes (seeds VERIF_SEED+i,
 # fresh corpus + a few golden files), writes /verif/target/fuzz_stats/<ID>.json. Exit 0 = no crash, 1 = crash
 # (violation; the glue wrote a JSON replay file), 2 = could not build, or a process hit a timeout / memory limit.
 set -u
-ID=$1; TGT=$2; RUNS=$3; PROCS=$4
+ID=$1; TGT=$2; RUNS=$3; PROCS=$4; MAXLEN=${5:-3000}
 V=$(cd "$(dirname "$0")/.." && pwd); T=$V/target
 export CARGO_NET_OFFLINE=true RUST_BACKTRACE=0
 REPO=${VERIF_REPO:-/repo}; if [ "$REPO" != /repo ]; then T=$V/target/alt-$(echo "$REPO" | md5sum | cut -c1-8); mkdir -p $V/fuzz/.cargo; printf 'paths = ["%s/bitar"]\n' "$REPO" > $V/fuzz/.cargo/config.toml; else rm -f $V/fuzz/.cargo/config.toml; fi
@@ -19,7 +19,7 @@ for i in $(seq 1 $PROCS); do
   if [ "$ID" = C15 ]; then
     n=0; for f in $REPO/bitar/tests/resources/*.cba; do n=$((n+1)); (printf '\000'; head -c 1500 "$f") > $W/corpus$i/golden$n; done
   fi
-  ( cd $W && $BIN corpus$i -runs=$RUNS -seed=$((SEED*100+i)) -len_control=0 -max_len=3000 -artifact_prefix=art$i/ -print_final_stats=1 >log$i 2>&1; echo $? >rc$i ) &
+  ( cd $W && $BIN corpus$i -runs=$RUNS -seed=$((SEED*100+i)) -len_control=0 -max_len=$MAXLEN -artifact_prefix=art$i/ -print_final_stats=1 >log$i 2>&1; echo $? >rc$i ) &
 done
 wait
 t1=$(date +%s)
